@@ -595,11 +595,11 @@ package proto
 //@ -- the same per-column order as EncodeRawBlock: row-count check, header, (Prepare), nothing more
 //@ -- for an empty column, then state, then data
 //@ callsite (*Writer).ChainBuffer#2
-//@   assert col.Data.nrows == b.Rows [C02,C14] {header-only-after-the-row-count-check}
+//@   assert col.Data.nrows == b.Rows [C02,C09,C14] {header-only-after-the-row-count-check}
 //@ callsite (*Writer).ChainBuffer#3
-//@   assert col.Data.nrows != 0 [C02,C14] {state-prefix-only-for-a-column-with-rows}
+//@   assert col.Data.nrows != 0 [C02,C09,C14] {state-prefix-only-for-a-column-with-rows}
 //@ callsite ColInput.WriteColumn
-//@   assert col.Data.nrows != 0 && col.Data.nrows == b.Rows [C02,C14] {column-data-only-for-a-non-empty-column-matching-the-block}
+//@   assert col.Data.nrows != 0 && col.Data.nrows == b.Rows [C02,C09,C14] {column-data-only-for-a-non-empty-column-matching-the-block}
 //@ loop 0 (rangeindex)
 //@   modifies w.bufOffset, w.vec, w.buf.Buf, all(input)
 //@   invariant -1 <= rangeindex && rangeindex < len(input) && wRI(w)
